@@ -94,6 +94,36 @@ def apply_environment_knobs():
 
         time.time, time.monotonic, time.perf_counter = mk("time"), mk("monotonic"), mk("perf_counter")
         time.time_ns, time.monotonic_ns, time.perf_counter_ns = mk("time", True), mk("monotonic", True), mk("perf_counter", True)
+    if os.environ.get("XPROC_LOG_DEBUG"):
+        import logging
+
+        logging.basicConfig(level=1, stream=open(os.devnull, "w"))
+        logging.getLogger().setLevel(1)
+        logging.captureWarnings(False)
+    if os.environ.get("XPROC_MAX_FDS"):
+        import resource
+
+        soft, hard = resource.getrlimit(resource.RLIMIT_NOFILE)
+        resource.setrlimit(resource.RLIMIT_NOFILE, (min(int(os.environ["XPROC_MAX_FDS"]), hard if hard > 0 else 1 << 20), hard))
+    if os.environ.get("XPROC_FIPS"):
+        import hashlib
+
+        def _refused():
+            try:
+                hashlib.md5(b"probe")
+            except ValueError:
+                return True
+            return False
+
+        if not _refused():  # this OpenSSL ignored the configuration file: behave like a FIPS host anyway
+            _real = hashlib.md5
+
+            def _fips_md5(data=b"", *, usedforsecurity=True, **kw):
+                if usedforsecurity:
+                    raise ValueError("[digital envelope routines] unsupported (simulated FIPS mode)")
+                return _real(data, usedforsecurity=False, **kw)
+
+            hashlib.md5 = _fips_md5
     if os.environ.get("XPROC_RECURSION"):
         sys.setrecursionlimit(int(os.environ["XPROC_RECURSION"]))
     if os.environ.get("XPROC_NOGC"):
